@@ -14,7 +14,14 @@ def parse(text):
 def too_big(sh, big=False):
     """big=True: the caller drives no factoring rule, so constants may grow to 1e60"""
     limit = 10 ** 60 if big else MR.MAX_CONST
-    return MR._max_abs_const(sh) > limit or S.size(sh) > 160 or S.depth(sh) > 40
+    if MR._max_abs_const(sh) > limit or S.size(sh) > 160 or S.depth(sh) > 40:
+        return True
+    # constant arithmetic evaluates constant sub-expressions exactly: a power with an exponent
+    # beyond 4096 (e.g. 7^4294967297 after folding '4294967296 + 1') would take minutes and
+    # gigabytes, so such trees are not handed to the rules
+    from ..oracles import exact as X
+
+    return X.magnitude_bits(sh, {}, limit=400000) is None
 
 
 def safe_to_evaluate(root, ctx=None):
